@@ -146,10 +146,9 @@ func makeAccumulatorFunc(expr parser.ItemType) (newAccumulatorFunc, error) {
 
 			return &accumulator{
 				AddFunc: func(v float64) {
-					if !hasValue {
+					// NaN is only kept if there is nothing else, like in Prometheus.
+					if !hasValue || value < v || math.IsNaN(value) {
 						value = v
-					} else {
-						value = math.Max(value, v)
 					}
 					hasValue = true
 				},
@@ -168,10 +167,9 @@ func makeAccumulatorFunc(expr parser.ItemType) (newAccumulatorFunc, error) {
 
 			return &accumulator{
 				AddFunc: func(v float64) {
-					if !hasValue {
+					// NaN is only kept if there is nothing else, like in Prometheus.
+					if !hasValue || value > v || math.IsNaN(value) {
 						value = v
-					} else {
-						value = math.Min(value, v)
 					}
 					hasValue = true
 				},
